@@ -1,5 +1,6 @@
 import GohtVerif.Model.Exec
 import GohtVerif.Model.Proxy
+import GohtVerif.Model.Generate
 /-! Line-protocol driver: one request per line, fields hex-encoded; one reply line per request. -/
 open GL
 
@@ -189,6 +190,50 @@ def doProxy (ops : String) : String :=
 
 end PxDrv
 
+namespace GnDrv
+open Gn
+
+def parsePath (d nm : String) : Path := { dir := (splitNE d ".").map hxu, name := hxu nm }
+
+/-- `G flags skips files fc sched`: one run of `goht generate` over a tree.
+flags = two of 0/1 (force, keep); skips = `_`-hex names, comma separated; files = `dir:name:content:mtime`,
+dir = `_`-hex components separated by `.`; fc = `content=output` or `content=-` (does not compile);
+sched = `w` (walk order) or `r` (reversed). Reply: the state of every listed path, then of the output of
+every listed path, `-` for absent, else `content@mtime`. -/
+def doGenerate (flags skips files fcs sched : String) : String :=
+  let fl := flags.toList
+  let ents : List (Path × File) := (splitNE files ",").filterMap fun f =>
+    match f.splitOn ":" with
+    | [d, nm, c, m] => some (parsePath d nm, { content := hxu c, mtime := m.toNat! })
+    | _ => none
+  let table : List (Bytes × Option Bytes) := ((splitNE fcs ",").filter (· != "-")).filterMap fun e =>
+    match e.splitOn "=" with
+    | [c, "-"] => some (hxu c, none)
+    | [c, o] => some (hxu c, some (hxu o))
+    | _ => none
+  let cfg : Cfg := { force := (fl.head? == some '1')
+                     keep := ((fl.drop 1).head? == some '1')
+                     skip := ((splitNE skips ",").filter (· != "-")).map hxu
+                     fc := (fun c => match table.find? (·.1 == c) with | some (_, o) => o | none => none)
+                     clock := (fun _ => 4000000000) }
+  let fs : FS := fun q => (ents.find? (·.1 == q)).map (·.2)
+  let dom := ents.map (·.1)
+  let acts := walk cfg fs dom
+  -- `exec` of the model, one `act` at a time; after each step the tree is tabulated over the finite
+  -- universe of paths in play (the model's trees are functions: nested closures would be re-evaluated)
+  let univ := dom ++ dom.map Path.outOf
+  let ofTab : List (Path × Option File) → FS := fun tab q =>
+    match tab.find? (·.1 == q) with | some (_, v) => v | none => none
+  let tabOf : FS → List (Path × Option File) := fun g => univ.map fun p => (p, g p)
+  let tab2 := (if sched == "r" then acts.reverse else acts).foldl (fun tab a => tabOf (act cfg (ofTab tab) a)) (tabOf fs)
+  let fs2 := ofTab tab2
+  let showF : Option File → String
+    | none => "-"
+    | some f => s!"_{toHex f.content}@{f.mtime}"
+  " ".intercalate ((dom.map fun p => showF (fs2 p)) ++ (dom.map fun p => showF (fs2 p.outOf)))
+
+end GnDrv
+
 def handle (line : String) : String :=
   match line.trimAscii.toString.splitOn " " with
   | ["L", input] => doLex (hx input)
@@ -197,6 +242,7 @@ def handle (line : String) : String :=
   | ["C"] => doCompile []
   | "H" :: rest => doHelper rest
   | ["P", ops] => PxDrv.doProxy ops
+  | ["G", flags, skips, files, fcs, sched] => GnDrv.doGenerate flags skips files fcs sched
   | "R" :: file :: name :: rest => showRender (renderTop (hx file) (hx name) (parseEnv rest))
   | _ => "BAD"
 
